@@ -389,7 +389,7 @@ func GenManifest(t *rapid.T, ix *Index, cfg GenConfig) Manifest {
 			case g < 28:
 				r.Group = "optional"
 			}
-			if cfg.Aliases && pct(t, lbl+".alias") < 5 {
+			if cfg.Aliases && pct(t, lbl+".alias") < 8 {
 				r.Alias = "aliased-" + strconv.Itoa(d)
 			}
 		}
@@ -731,6 +731,20 @@ func GenScenario(t *rapid.T, cfg GenConfig) Scenario {
 		}
 	}
 	s := Scenario{Universe: u, Manifest: m, Vulns: GenVulns(t, ix, cfg), Levels: GenLevels(t, ix)}
+	// a package declared through an alias gets a level of its own in half of the cases: the
+	// configuration is keyed by package name, whatever the manifest calls the dependency
+	for i, d := range m.Deps {
+		if d.Alias == "" {
+			continue
+		}
+		if Pct(t, fmt.Sprintf("level.alias%d?", i)) < 50 {
+			if s.Levels.Packages == nil {
+				s.Levels.Packages = map[string]string{}
+			}
+			s.Levels.Packages[d.Name] = genLevel(t, fmt.Sprintf("level.alias%d", i), [4]int{0, 25, 35, 40})
+		}
+		break
+	}
 	if cfg.System == Maven && cfg.PomChains > 0 && Pct(t, "pomchain?") < cfg.PomChains {
 		genPomChain(t, &s.Manifest)
 	}
